@@ -46,7 +46,58 @@ def fmtCtx : Ctx → String
 def parseSpecial : String → Option Special
   | "ok" => some .ok | "alt" => some .alt | "rej" => some .rej | _ => none
 
+/-- values of the eight outputs of the funding transaction of the `spend` stream -/
+def fundVals : List Int := [100000000000, 1000000, 100000000000, 500000000, 1000000, 250000000000, 1, 100000000]
+
+def fundVal (i : Nat) : Fixed64 := ofInt (fundVals.getD i 0)
+
+/-- "<m> (idx seq)*" -/
+def parsePairs : Nat → List String → Option (List In × List String)
+  | 0, rest => some ([], rest)
+  | k + 1, i :: q :: rest =>
+    match nat? i, nat? q, parsePairs k rest with
+    | some i, some q, some (is, r) => some (⟨i, q⟩ :: is, r)
+    | _, _, _ => none
+  | _, _ => none
+
+/-- one transaction of a `spend` op: TransferAsset at height 2 of the regnet chain, references =
+    the outputs of the funding transaction the inputs name -/
+def spendOne (ins : List In) (outs : List Fixed64) : String :=
+  let env : Env := { minFee := ofInt 100, afterNFT := false, multiExchange := false, rectifyFee := ofInt 10000 }
+  let refs := refsOf fundVal ins
+  let san := sanity curRev .plainOut env ins outs
+  let ctx := context .plainOut env .ok outs refs
+  let pool := if san != .ok then fmtSan san else
+    match ctx with
+    | .ok _ => "ok"
+    | c => fmtCtx c
+  fmtSan san ++ " " ++ fmtCtx ctx ++ " " ++ pool
+
+def spendAll : Nat → List String → Option (List String)
+  | 0, _ => some []
+  | k + 1, m :: rest =>
+    match nat? m with
+    | some m =>
+      match parsePairs m rest with
+      | some (ins, rest2) =>
+        match parseVec rest2 with
+        | some (outs, rest3) =>
+          match spendAll k rest3 with
+          | some more => some (spendOne ins outs :: more)
+          | none => none
+        | none => none
+      | none => none
+    | none => none
+  | _, _ => none
+
 def stepC01 : List String → String
+  | "spend" :: ntx :: rest =>
+    match nat? ntx with
+    | some ntx =>
+      match spendAll ntx rest with
+      | some parts => " ; ".intercalate parts
+      | none => "bad-op"
+    | none => "bad-op"
   | "fee" :: rest =>
     match parseVec rest with
     | some (outs, rest) =>
